@@ -474,6 +474,107 @@ fn constructor_grid() -> (u64, Vec<String>, Vec<Value>) {
     (n, msgs, samples)
 }
 
+/// A few *long* histories executed directly on the real queue and on the model (ideal and stale-ticket variant):
+/// (operations executed, violations, known findings)
+fn long_scenarios(tier: &str, kf: &KnownFindings) -> (u64, Vec<String>, Vec<(String, String)>) {
+    #[derive(Clone, Copy)]
+    enum L {
+        Push(u64),
+        Remove(u64),
+        /// n x (remove id, push id): an order amended n times
+        Amend(u64, u64),
+        /// n x (push id, remove id): n short-lived orders
+        Flash(u64, u64),
+    }
+    let big = if tier == "quick" { 1u64 } else { 2 };
+    let scenarios: Vec<(String, Vec<L>)> = vec![
+        ("push #1 #2; amend #1 30 000 times; push #3; amend #1 40 000 times".into(), vec![L::Push(1), L::Push(2), L::Amend(1, 30_000 * big), L::Push(3), L::Amend(1, 40_000 * big)]),
+        ("push #1; 65 535 short-lived orders; push #3 #2; remove #3".into(), vec![L::Push(1), L::Flash(3, 65_535), L::Push(3), L::Push(2), L::Remove(3)]),
+        ("push #1; 65 536 short-lived orders; push #3 #2; remove #3".into(), vec![L::Push(1), L::Flash(3, 65_536), L::Push(3), L::Push(2), L::Remove(3)]),
+        ("push #2; amend #2 70 000 times; remove #2; push #1 #3".into(), vec![L::Push(2), L::Amend(2, 70_000 * big), L::Remove(2), L::Push(1), L::Push(3)]),
+        ("push #1 #2 #3; 131 072 short-lived orders #4; remove #2".into(), vec![L::Push(1), L::Push(2), L::Push(3), L::Flash(4, 131_072), L::Remove(2)]),
+    ];
+    let mut nops = 0u64;
+    let mut msgs = vec![];
+    let mut known = vec![];
+    for (name, steps) in scenarios {
+        let r = std::panic::catch_unwind(|| {
+            let q = OrderQueue::new();
+            let mut ideal = ModelQueue::new(false);
+            let mut stale = ModelQueue::new(true);
+            let mut n = 0u64;
+            for st in &steps {
+                let mut one = |push: bool, id: u64| {
+                    n += 1;
+                    if push {
+                        q.push(Arc::new(q_order(id)));
+                        ideal.push(q_order(id));
+                        stale.push(q_order(id));
+                    } else {
+                        let _ = q.remove(q_id(id));
+                        let _ = ideal.remove(q_id(id));
+                        let _ = stale.remove(q_id(id));
+                    }
+                };
+                match *st {
+                    L::Push(id) => one(true, id),
+                    L::Remove(id) => one(false, id),
+                    L::Amend(id, k) => {
+                        for _ in 0..k {
+                            one(false, id);
+                            one(true, id);
+                        }
+                    }
+                    L::Flash(id, k) => {
+                        for _ in 0..k {
+                            one(true, id);
+                            one(false, id);
+                        }
+                    }
+                }
+            }
+            let len = q.len();
+            let listed: Vec<Rec> = content(&q).iter().map(rec).collect();
+            let mut want_listed: Vec<Rec> = ideal.orders.iter().map(rec).collect();
+            want_listed.sort();
+            let mut got = vec![];
+            while let Some(o) = q.pop() {
+                got.push(rec(&o).id);
+                if got.len() > 16 {
+                    break;
+                }
+            }
+            let dr = |m: &mut ModelQueue| {
+                let mut v = vec![];
+                while let Some(o) = m.pop() {
+                    v.push(rec(&o).id);
+                }
+                v
+            };
+            (n, len, listed, want_listed, got, dr(&mut ideal), dr(&mut stale), q.len())
+        });
+        match r {
+            Err(_) => msgs.push(format!("long scenario [{name}]: the queue panicked")),
+            Ok((n, len, listed, want_listed, got, want_ideal, want_stale, len_after)) => {
+                nops += n;
+                if listed != want_listed || len != want_listed.len() {
+                    msgs.push(format!("long scenario [{name}]: the queue lists {} orders (len {len}), the model holds {}", listed.len(), want_listed.len()));
+                }
+                if len_after != 0 && got.len() <= 16 {
+                    msgs.push(format!("long scenario [{name}]: after popping until None the queue still reports {len_after} queued order(s); popped {got:?}"));
+                }
+                if got == want_ideal {
+                } else if got == want_stale && kf.is_open("C19", "stale_ticket_keeps_position") {
+                    known.push(("stale_ticket_keeps_position".to_string(), format!("long scenario [{name}]: pop order {got:?}, the ideal FIFO gives {want_ideal:?}")));
+                } else {
+                    msgs.push(format!("long scenario [{name}]: pop order {got:?}; the FIFO model gives {want_ideal:?} (stale-ticket variant {want_stale:?})"));
+                }
+            }
+        }
+    }
+    (nops, msgs, known)
+}
+
 pub fn run(tier: &str) -> i32 {
     let mut report = Report::new("C19", tier, "model_checking");
     let mut ops = vec![];
@@ -565,6 +666,18 @@ pub fn run(tier: &str) -> i32 {
             json!({"engine": "seq-queue", "property": "C19", "tier": tier, "history": h, "history_names": bnames(h)}),
         );
     }
+    // long scenarios: tens of thousands of removals / stale tickets (thresholds such as 2^16 hide behind them)
+    {
+        let kf = KnownFindings::load();
+        let (n, msgs, known) = long_scenarios(tier, &kf);
+        for m in msgs {
+            report.violation(m.clone(), json!({"engine": "seq-queue", "property": "C19", "long_scenario": m}));
+        }
+        for (sig, m) in known {
+            report.known(&sig, m);
+        }
+        report.add_cov_u64("long_scenario_operations", n);
+    }
     report.add_cov_u64("bulk_alphabet_states", rb.states);
     report.add_cov_u64("bulk_alphabet_transitions", rb.transitions);
     let _rec = Recorder::install();
@@ -592,7 +705,7 @@ pub fn run(tier: &str) -> i32 {
     report.cov("capped", json!(r.capped));
     report.cov("exhaustive", json!(r.capped.is_none() && r.depth_completed == depth || r.per_depth.last().map(|l| l.1 == 0).unwrap_or(false)));
     report.cov("per_depth_new_states_transitions", json!(r.per_depth));
-    report.cov("rule", json!("all sequences over push(#1..#3, only if not queued) / pop / remove / find / len / is_empty / to_vec on a real OrderQueue, compared step by step (result, content, len, is_empty, pop order of a final drain) with a FIFO-with-removal model and its stale-ticket variant; in every new state the text / JSON / from_vec / From<Vec> forms are rebuilt; plus every list of <= 3 orders in every permutation through the four constructors; non-trivial = >= 2 queued orders or stale tickets present"));
+    report.cov("rule", json!("all sequences over push(#1..#3, only if not queued) / pop / remove / find / len / is_empty / to_vec on a real OrderQueue, compared step by step (result, content, len, is_empty, pop order of a final drain) with a FIFO-with-removal model and its stale-ticket variant; in every new state the text / JSON / from_vec / From<Vec> forms are rebuilt; plus every list of <= 3 orders in every permutation through the four constructors; plus five long histories (30 000 - 131 072 removals / re-pushes in a row, around 2^16 and 2^17) compared with the same model; non-trivial = >= 2 queued orders or stale tickets present"));
     report.cov("samples", json!(samples));
     report.assumptions = vec![
         "3 ids, depth as reported; state = ticket mirror + map content (128-bit hash)".into(),
